@@ -111,6 +111,14 @@ def parseOp (args : List String) : Option Op :=
   | ["unlock", p] => (fromHex p).map .apiUnlock
   | ["updpw", p, w] => do pure (.apiUpdatePassword (← fromHex p) (← fromHex w))
   | ["setcookie", b, c] => some (.setCookie (lit b) (parseCookie c))
+  | "seed" :: rest =>
+    let m := kvs rest
+    some (.seedUser { pid := lookB m "pid", email := lookB m "pid", pw := lookB m "pw", confirmed := lookF m "conf",
+                      attempts := lookI m "att",
+                      lastAttempt := match look m "last" with | some "z" => zeroTime | some v => v.toInt?.getD 0 | none => zeroTime,
+                      locked := match look m "locked" with | some "z" => zeroTime | some v => v.toInt?.getD 0 | none => zeroTime,
+                      otps := parseList ((look m "otps").getD ""), totpSecret := lookB m "totp",
+                      smsNumber := lookB m "sms", recCodes := parseList ((look m "rec").getD "") })
   | _ => none
 
 /-! ### Printing -/
